@@ -7,6 +7,10 @@ use crate::svg::{Doc, Kind};
 
 pub struct C05;
 
+/// interior variants: 0 = empty, odd = a word flush with the left wall, even = flush with the right wall
+const WORDS: [&str; 5] = ["a", "ok", "no", "Oslo", "v2"];
+const INTERIORS: i64 = 1 + 2 * WORDS.len() as i64;
+
 const SBOX: [char; 11] = [' ', '-', '|', '+', '.', '\'', '`', ',', '~', ':', '!'];
 
 fn is_corner(c: char) -> bool {
@@ -112,7 +116,7 @@ impl Prop for C05 {
         "C05"
     }
     fn rule(&self) -> &'static str {
-        "completeness: every box of 9 styles x inner width 0..12 (thorough 0..60) x inner height 0..6 (thorough 0..30) x offsets x interiors {empty, label at the left wall, label at the right wall} \
+        "completeness: every box of 9 styles x inner width 0..12 (thorough 0..60) x inner height 0..6 (thorough 0..30) x offsets x interiors {empty, each of the words a / ok / no / Oslo / v2 flush with the left wall and flush with the right wall} \
          x side patterns (all strings over {|,:,!} with at least one '|' for h<=4 (thorough 6), else one dashed stretch at every position) must be exactly one rect with the predicted x,y,width,height,rx,class and nothing but the interior labels; \
          soundness: every non-filled rect in every output of these families, of all grids over the 11 box characters of 2x3 and 3x2 (quick: one seed-selected 1/16 slice), all 3x3 grids over {space,-,|,+}, \
          and boxes with 1 (thorough 2) replaced cells must have corner characters at its corners and edge-carrying characters along all four edges. \
@@ -120,7 +124,7 @@ impl Prop for C05 {
     }
     fn assumptions(&self) -> Vec<String> {
         vec![
-            "rounded styles start at inner width 1 and styles with ',' as top-left corner at inner height 1 (adjacent corner characters have no line between them to connect to; see DESIGN.md C05)".into(),
+            "rounded styles start at inner width 1 and the style with ',' directly over an apostrophe at inner height 1 (adjacent corner characters have no line between them to connect to; see DESIGN.md C05)".into(),
             "a side consisting only of ':'/'!' is text by design (the dashed characters need a solid vertical neighbour), so side patterns contain at least one '|'".into(),
             "corner characters are admitted inside horizontal edges in the soundness rule ('+.+' over '| |' over '+-+' really draws the top edge)".into(),
         ]
@@ -141,7 +145,7 @@ impl Prop for C05 {
                     for w in 0..=mw {
                         for h in 0..=mh {
                             for (oi, _) in offs.iter().enumerate() {
-                                for interior in 0..3 {
+                                for interior in 0..INTERIORS {
                                     if interior > 0 && (w == 0 || h == 0) {
                                         continue;
                                     }
@@ -271,7 +275,7 @@ impl Prop for C05 {
             cx.tally("excluded: rounded ASCII style with inner width 0");
             return;
         }
-        if st.tl == ',' && h == 0 {
+        if st.tl == ',' && st.bl == '\'' && h == 0 {
             cx.tally("excluded: ',' top-left corner with inner height 0");
             return;
         }
@@ -295,10 +299,17 @@ impl Prop for C05 {
         } else {
             None
         };
-        let inner: Vec<String> = match interior {
-            1 => vec!["a".to_string()],
-            2 => vec![format!("{}a", " ".repeat(w.saturating_sub(1)))],
-            _ => vec![],
+        let word = if interior > 0 { WORDS[((interior - 1) / 2) as usize] } else { "" };
+        if interior > 0 && word.len() > w {
+            return;
+        }
+        let left = interior % 2 == 1;
+        let inner: Vec<String> = if interior == 0 {
+            vec![]
+        } else if left {
+            vec![word.to_string()]
+        } else {
+            vec![format!("{}{}", " ".repeat(w - word.len()), word)]
         };
         // build the box
         let mut rows = shapes::box_rows(&st, w, h, None, &inner);
@@ -339,10 +350,12 @@ impl Prop for C05 {
         }
         if ok {
             // interior labels and nothing else as text
-            let want_t: Vec<(f64, f64, String)> = match interior {
-                1 => vec![((ox as f64 + 1.0) * s + 2.0, (oy as f64 + 1.0) * 2.0 * s + 12.0, "a".into())],
-                2 => vec![((ox as f64 + w as f64) * s + 2.0, (oy as f64 + 1.0) * 2.0 * s + 12.0, "a".into())],
-                _ => vec![],
+            let want_t: Vec<(f64, f64, String)> = if interior == 0 {
+                vec![]
+            } else if left {
+                vec![((ox as f64 + 1.0) * s + 2.0, (oy as f64 + 1.0) * 2.0 * s + 12.0, word.to_string())]
+            } else {
+                vec![((ox as f64 + 1.0 + (w - word.len()) as f64) * s + 2.0, (oy as f64 + 1.0) * 2.0 * s + 12.0, word.to_string())]
             };
             let got_t: Vec<(f64, f64, String)> = texts.iter().map(|t| (t.xs[0], t.ys[0], t.text.clone())).collect();
             ok = want_t == got_t;
